@@ -55,7 +55,7 @@ def tokStart : Token → Nat
 
 /-- a terminal identifier's `dollarless_position` is at least 1 (there is a `$` before it) -/
 def posOk : Token → Prop
-  | .termIdent _ dp => 1 ≤ dp
+  | .termIdent n dp => 1 ≤ dp ∧ ∀ c ∈ n, isIdentChar c = true
   | _ => True
 
 theorem reserved_posOk {w : Str} {p : Nat} {t : Token} (h : reserved w p = some t) : posOk t := by
@@ -148,7 +148,8 @@ theorem next_emit_text {cs : Str} {i k : Nat} {t : Token} (h : next cs i = .emit
           · simp only [Step.emit.injEq] at h
             obtain ⟨ht, hk⟩ := h
             subst hk; subst ht
-            refine ⟨?_, (by show i + 1 - 1 = i; omega), ?_, (by show 1 ≤ i + 1; omega)⟩
+            refine ⟨?_, (by show i + 1 - 1 = i; omega), ?_,
+              (by show 1 ≤ i + 1 ∧ _; exact ⟨by omega, span_fst_all isIdentChar (d :: r')⟩)⟩
             · show '$' :: (span isIdentChar (d :: r')).1 = _
               rw [List.take_succ_cons, take_span, hdol]
             · have := congrArg List.length (span_append isIdentChar (d :: r'))
